@@ -30,6 +30,10 @@
 //   (handle_timed_event).  Acknowledgment bases never move backwards.  xc_repair_source_timestamps: the
 //   same with every sample written with no source timestamp / the same one as the previous stamped write /
 //   one a second earlier (all patterns), n in 1..=3, History KeepLast(1) / KeepAll, B absent.
+//   xc_repair_options_orders: n in 1..=2, every assignment to {everybody, A, B}, with / without a source
+//   timestamp and a related sample identity on every write, the WriteOptions built through the real
+//   WriteOptionsBuilder in every order of the setters in use; xc_write_options_builder_orders: the builder
+//   alone, every subset and order of its three setters.
 //   A reader matched late by a non-Volatile writer that requests a still retrievable sample written for
 //   the other reader is part of the sweep (former finding F11, repaired by 2d0b53a).
 #[cfg(test)]
@@ -46,6 +50,7 @@ mod verif_xc_writer_repair {
   use super::*;
   use crate::{
     dds::{statusevents::sync_status_channel, with_key::datawriter::WriteOptionsBuilder},
+    structure::rpc::SampleIdentity,
     messages::submessages::{
       elements::serialized_payload::SerializedPayload,
       submessages::{AckNack, WriterSubmessage},
@@ -88,6 +93,8 @@ mod verif_xc_writer_repair {
     a_req: Vec<i64>,  // numbers it requests
     timed: bool,      // run the repair through the real timer
     stamps: Vec<St>,  // source timestamps of the writes (empty: none)
+    related: bool,    // every write carries a related sample identity
+    order: usize,     // which order of the WriteOptionsBuilder setters in use
   }
   impl Case {
     fn n(&self) -> i64 {
@@ -285,17 +292,57 @@ mod verif_xc_writer_repair {
     }
     v
   }
-  fn options(c: &Case, i: i64) -> WriteOptions {
-    let mut b = WriteOptionsBuilder::new();
-    match c.to[(i - 1) as usize] {
-      To::All => {}
-      To::A => b = b.to_single_reader(reader_guid(A)),
-      To::B => b = b.to_single_reader(reader_guid(B)),
+  // the WriteOptions of a write, built through the real builder: the setters in use are applied in the
+  // order-th of all their orders (what the options must say is known from the scenario, not from here)
+  #[derive(Clone, Copy, Debug)]
+  enum Setter {
+    Single(GUID),
+    Stamp(Timestamp),
+    Related(SampleIdentity),
+  }
+  fn orders(k: usize) -> Vec<Vec<usize>> {
+    if k == 0 {
+      return vec![vec![]];
     }
-    if let Some(ts) = source_timestamp(&c.stamps, i) {
-      b = b.source_timestamp(ts);
+    let mut out = vec![];
+    for p in orders(k - 1) {
+      for pos in 0..=p.len() {
+        let mut q = p.clone();
+        q.insert(pos, k - 1);
+        out.push(q);
+      }
+    }
+    out
+  }
+  fn build_options(setters: &[Setter], order: usize) -> WriteOptions {
+    let perms = orders(setters.len());
+    let mut b = WriteOptionsBuilder::new();
+    for k in &perms[order % perms.len()] {
+      b = match setters[*k] {
+        Setter::Single(g) => b.to_single_reader(g),
+        Setter::Stamp(ts) => b.source_timestamp(ts),
+        Setter::Related(si) => b.related_sample_identity(si),
+      };
     }
     b.build()
+  }
+  fn related_identity(i: i64) -> SampleIdentity {
+    SampleIdentity { writer_guid: reader_guid(B), sequence_number: sn(100 + i) }
+  }
+  fn options(c: &Case, i: i64) -> WriteOptions {
+    let mut setters = vec![];
+    match c.to[(i - 1) as usize] {
+      To::All => {}
+      To::A => setters.push(Setter::Single(reader_guid(A))),
+      To::B => setters.push(Setter::Single(reader_guid(B))),
+    }
+    if let Some(ts) = source_timestamp(&c.stamps, i) {
+      setters.push(Setter::Stamp(ts));
+    }
+    if c.related {
+      setters.push(Setter::Related(related_identity(i)));
+    }
+    build_options(&setters, c.order)
   }
   fn acknack(z: usize, base: i64, req: &[i64], count: i32) -> AckSubmessage {
     let mut set = SequenceNumberSet::new_empty(sn(base));
@@ -632,7 +679,7 @@ mod verif_xc_writer_repair {
               for a_ack0 in ack0s {
                 for a_base in a_ack0..=n + 1 {
                   for a_req in subsets(a_base, n + 1) {
-                    let c = Case { history, max_samples, volatile, b, to: to.clone(), a_late, a_ack0, a_base, a_req, timed: false, stamps: vec![] };
+                    let c = Case { history, max_samples, volatile, b, to: to.clone(), a_late, a_ack0, a_base, a_req, timed: false, stamps: vec![], related: false, order: 0 };
                     run(h, &c, st)?;
                   }
                 }
@@ -702,6 +749,7 @@ mod verif_xc_writer_repair {
                 let c = Case {
                   history, max_samples: None, volatile: false, b: BKind::Absent, to: vec![To::All; n as usize],
                   a_late, a_ack0, a_base: a_ack0, a_req, timed: false, stamps: stamps.clone(),
+                  related: false, order: 0,
                 };
                 run(&mut h, &c, &mut st)?;
               }
@@ -721,6 +769,76 @@ mod verif_xc_writer_repair {
     }
   }
 
+  // samples written for one particular reader, the WriteOptions built in every order of the setters in use
+  #[test]
+  fn xc_repair_options_orders() {
+    let mut st = Stats::default();
+    let r = Harness::new().and_then(|mut h| {
+      for n in 1..=2i64 {
+        for to in assignments(n as usize) {
+          for b in [BKind::BestEffort, BKind::Reliable { ack: 1 }] {
+            for stamped in [false, true] {
+              for related in [false, true] {
+                for order in 0..6 {
+                  for a_req in subsets(1, n) {
+                    let c = Case {
+                      history: Hist::KeepAll, max_samples: None, volatile: false, b, to: to.clone(),
+                      a_late: false, a_ack0: 1, a_base: 1, a_req, timed: false,
+                      stamps: if stamped { vec![St::Same; n as usize] } else { vec![] },
+                      related, order,
+                    };
+                    run(&mut h, &c, &mut st)?;
+                  }
+                }
+              }
+            }
+          }
+        }
+      }
+      Ok(())
+    });
+    match r {
+      Err(Env(e)) => eprintln!("XC-NOTE options orders: environment failure, nothing checked: {}", e),
+      Ok(()) => assert!(
+        st.cases > 1_900 && st.answered_by_data > 1_000 && st.single_reader_gaps > 300,
+        "vacuity guard (options orders): {} scenarios, {} requests answered by DATA, {} by a GAP for a retrievable sample of the other reader",
+        st.cases, st.answered_by_data, st.single_reader_gaps
+      ),
+    }
+  }
+
+  // the WriteOptionsBuilder alone: every subset of its three setters in every order
+  #[test]
+  fn xc_write_options_builder_orders() {
+    let g = reader_guid(A);
+    let ts = Timestamp::from_ticks(77u64 << 32);
+    let si = related_identity(1);
+    let mut cases = 0u64;
+    for mask in 0u32..8 {
+      let mut setters = vec![];
+      if mask & 1 != 0 { setters.push(Setter::Single(g)); }
+      if mask & 2 != 0 { setters.push(Setter::Stamp(ts)); }
+      if mask & 4 != 0 { setters.push(Setter::Related(si)); }
+      let perms = orders(setters.len());
+      for (order, perm) in perms.iter().enumerate() {
+        let wo = build_options(&setters, order);
+        let want = (
+          if mask & 1 != 0 { Some(g) } else { None },
+          if mask & 2 != 0 { Some(ts) } else { None },
+          if mask & 4 != 0 { Some(si) } else { None },
+        );
+        let got = (wo.to_single_reader(), wo.source_timestamp(), wo.related_sample_identity());
+        assert!(
+          got == want,
+          "XC-WITNESS label=push.options.order setters applied in the order {:?}: build() carries (to_single_reader, source_timestamp, related_sample_identity) = {:?}, set were {:?}",
+          perm.iter().map(|k| setters[*k]).collect::<Vec<_>>(), got, want
+        );
+        cases += 1;
+      }
+    }
+    assert!(cases == 16, "vacuity guard: {} builder orders", cases);
+  }
+
   // the same oracle with the repair driven by the real timer (nack_response_delay 0, tick 1 ms)
   #[test]
   fn xc_repair_timed_event_path() {
@@ -735,7 +853,7 @@ mod verif_xc_writer_repair {
         (Hist::KeepAll, vec![To::All], false, 1, vec![]),
       ] {
         for b in [BKind::Absent, BKind::Reliable { ack: to.len() as i64 + 1 }] {
-          let c = Case { history, max_samples: None, volatile: false, b, to: to.clone(), a_late, a_ack0: 1, a_base, a_req: a_req.clone(), timed: true, stamps: vec![] };
+          let c = Case { history, max_samples: None, volatile: false, b, to: to.clone(), a_late, a_ack0: 1, a_base, a_req: a_req.clone(), timed: true, stamps: vec![], related: false, order: 0 };
           run(&mut h, &c, &mut st)?;
         }
       }
